@@ -194,7 +194,9 @@ def gradient_index_rule(run_, pkg):
             n += 1
             par = parents.get(node)
             bad = None
-            if isinstance(par, ast.BinOp) and not isinstance(par.op, ast.Add):
+            if isinstance(par, ast.BinOp) and isinstance(par.op, ast.Sub) and is_gi(par.left, tainted) and is_gi(par.right, tainted):
+                bad = None      # the difference of two positions is a block size
+            elif isinstance(par, ast.BinOp) and not isinstance(par.op, ast.Add):
                 bad = "arithmetic `%s`" % ast.unparse(par)[:60]
             elif isinstance(par, ast.UnaryOp) and isinstance(par.op, (ast.USub, ast.Invert)):
                 bad = "arithmetic `%s`" % ast.unparse(par)[:60]
@@ -209,6 +211,8 @@ def gradient_index_rule(run_, pkg):
 
 def is_gi(e, tainted):
     if isinstance(e, ast.Attribute) and e.attr == "gradient_index":
+        return True
+    if isinstance(e, ast.BinOp) and isinstance(e.op, ast.Add) and (is_gi(e.left, tainted) or is_gi(e.right, tainted)):
         return True
     return isinstance(e, ast.Name) and e.id in tainted
 
